@@ -106,6 +106,12 @@ func opBlock(h *HState, a Event) Event {
 				buf.Write(bytes.Repeat([]byte{0xEE}, len(ser)))
 			case "msg+emptybytes": // an empty, non-nil byte slice is not a serialization
 				o.b = bchutil.NewBlockFromBlockAndBytes(msg, make([]byte, 0, 16))
+			case "msg+emptyscratch": // "no bytes yet" handed over as the empty front of a big recycled buffer full of stale data
+				scratch := bytes.Repeat([]byte{0xEE}, len(ser)+64)
+				o.b = bchutil.NewBlockFromBlockAndBytes(msg, scratch[:0])
+			case "msg+bytescap": // the exact serialization, sitting in a larger buffer
+				scratch := append(append([]byte{}, ser...), bytes.Repeat([]byte{0xEE}, 40)...)
+				o.b = bchutil.NewBlockFromBlockAndBytes(msg, scratch[:len(ser)])
 			case "msg+nilbytes":
 				o.b = bchutil.NewBlockFromBlockAndBytes(msg, nil)
 			case "msg+bytes":
@@ -266,7 +272,7 @@ func opTxWrap(_ *HState, a Event) Event {
 
 func runC16(c *Ctx) {
 	r := c.Rng
-	ctors := []string{"msg", "bytes", "reader", "msg+bytes", "bytes+trailing", "buffer", "msg+emptybytes", "msg+nilbytes"}
+	ctors := []string{"msg", "bytes", "reader", "msg+bytes", "bytes+trailing", "buffer", "msg+emptybytes", "msg+nilbytes", "msg+emptyscratch", "msg+bytescap"}
 	// TLC-generated call sequences on blocks of 0..3 transactions, for every constructor
 	for ci, cs := range readCases(c.Cases) {
 		n := gInt(cs, "n")
@@ -330,6 +336,19 @@ func runC16(c *Ctx) {
 			calls = append(calls, Event{"op": "Transactions"}, Event{"op": "Tx", "i": n - 1}, Event{"op": "TxHash", "i": k}, Event{"op": "Transactions"})
 			c.Run(calls)
 		}
+	}
+	// big blocks whose count is not a multiple of 2, 4, 8 (wrapping split between workers leaves a remainder):
+	// Transactions() first, then every index
+	for i, n := range []int{513, 1027} {
+		if !c.Thorough() && n != 513 {
+			continue
+		}
+		calls := []Event{{"op": "BlockNew", "n": n, "salt": 9900 + i, "ctor": ctors[i%3], "token": false}, {"op": "Transactions"}}
+		for _, ix := range []int{n - 1, n - 2, n - 3, 511, 512, 0} {
+			calls = append(calls, Event{"op": "Tx", "i": ix}, Event{"op": "TxHash", "i": ix})
+		}
+		calls = append(calls, Event{"op": "Transactions"})
+		c.Run(calls)
 	}
 	// transaction counts around the CompactSize boundary (one-byte / three-byte count): locations and bytes
 	for i, n := range []int{252, 253, 254, c.Pick(300, 1000)} {
